@@ -42,6 +42,17 @@ def lookup(ex, name):
             for i in range(n): mem.store(st, I8, a[2], ('p', p[1], p[2] + i))
             mem.store(st, I8, iv(8, 0), ('p', p[1], p[2] + n)); mem.store(st, I64, iv(64, n), ('p', this[1], this[2] + 8))
         return f
+    if name in (PFX + 'C2EPKcRKS3_', PFX + 'C1EPKcRKS3_'):
+        # basic_string(const char *, const allocator &)
+        def f(st, a):
+            this = a[0]; lit = mem.cstr(st, a[1], limit=4096); n = len(lit)
+            if n > 15:
+                oid = st.alloc(n + 1, 'heap%d' % st.next_obj); p = ('p', oid, 0); mem.store(st, I64, iv(64, n), ('p', this[1], this[2] + 16))
+            else: p = ('p', this[1], this[2] + 16)
+            mem.store(st, PTR(I8), p, ('p', this[1], this[2]))
+            for i, ch in enumerate(lit): mem.store(st, I8, iv(8, ord(ch)), ('p', p[1], p[2] + i))
+            mem.store(st, I8, iv(8, 0), ('p', p[1], p[2] + n)); mem.store(st, I64, iv(64, n), ('p', this[1], this[2] + 8))
+        return f
     if name == PFX + '14_M_replace_auxEmmmc':
         def f(st, a):
             p, n, cap, local = _get(ex, st, a[0]); pos = ex.conc(st, a[1]); n1 = ex.conc(st, a[2]); n2 = ex.conc(st, a[3])
